@@ -35,7 +35,7 @@ ANCHORS = [
     "acnportal.acnsim.analysis:energy_cost",
     "acnportal.acnsim.analysis:demand_charge",
 ]
-REQUIRED = ["user_subclass_of_the_tariff_overriding_the_per_instant_lookup", "same_instant_in_several_zones", "vector_lookups_of_over_1000_periods", "cost_checks_under_another_tariff_in_the_same_process", "sub_second_instants", "vector_lookups_with_periods_of_days_or_months", "lookups_judged", "vector_lookups", "interface_price_vectors", "cost_checks", "regime:wrapped-season",
+REQUIRED = ["same_instant_in_several_zones", "vector_lookups_of_over_1000_periods", "cost_checks_under_another_tariff_in_the_same_process", "sub_second_instants", "vector_lookups_with_periods_of_days_or_months", "lookups_judged", "vector_lookups", "interface_price_vectors", "cost_checks", "regime:wrapped-season",
             "regime:weekend", "regime:weekday", "regime:leap-day"]
 BUDGET_S = {"quick": 240, "thorough": 3000}
 EXHAUSTIVE = {"quick": "all 14 calendar types x every day x boundary instants x 5 files",
@@ -116,7 +116,7 @@ class _Shifted:
 
 def _load_maybe_user(name, rng, obs):
     tar, orc = _load(name)
-    if rng.random() < 0.2:
+    if False:  # withdrawn (DESIGN 13): whether the vector lookup dispatches through an OVERRIDDEN get_tariff is not in the statement
         from vlib.userext import LocalClockTariff, CLOCK_SHIFT_H
         obs.ev("user_subclass_of_the_tariff_overriding_the_per_instant_lookup")
         return LocalClockTariff(name), _Shifted(orc, CLOCK_SHIFT_H)
@@ -342,13 +342,18 @@ def _run_sim(case, obs):
     prices = [orc.lookup(start + timedelta(minutes=per) * k)[0] for k in range(T)]
     exp_cost = sum(p * w for p, w in zip(prices, power)) * (per / 60.0)
     exp_dc = orc.lookup(start)[1] * max(power)
+    # a run that crosses into a season with another demand rate: which instant's rate bills the peak is not in the statement
+    dc_rates = {orc.lookup(start + timedelta(minutes=per) * k)[1] for k in range(T)}
+    dc_ok = lambda got_, peak_: any(abs(got_ - r_ * peak_) <= 1e-9 * max(1.0, abs(r_ * peak_)) for r_ in dc_rates)
+    if len(dc_rates) > 1:
+        obs.ev("runs_spanning_two_demand_rates")
     for label, kw in (("signals", {}), ("explicit", {"tariff": tar})):
         c = acnsim.energy_cost(sim, **kw)
         dch = acnsim.demand_charge(sim, **kw)
         obs.ev("cost_checks")
         if not (abs(c - exp_cost) <= 1e-9 * max(1.0, abs(exp_cost))):
             obs.violate("energy_cost", f"{c!r} expected {exp_cost!r}", file=name)
-        if not (abs(dch - exp_dc) <= 1e-9 * max(1.0, abs(exp_dc))):
+        if not dc_ok(dch, max(power)):
             obs.violate("demand_charge", f"{dch!r} expected {exp_dc!r}", file=name)
     # the same simulation costed under every bundled tariff in turn, in this one process (two of the files carry the same tariff
     # name and effective date): each result is that file's own sum(price x power x dt)
@@ -360,6 +365,7 @@ def _run_sim(case, obs):
         try:
             o_prices = [o_orc.lookup(start + timedelta(minutes=per) * k)[0] for k in range(T)]
             o_dc = o_orc.lookup(start)[1] * max(power)
+            o_rates = {o_orc.lookup(start + timedelta(minutes=per) * k)[1] for k in range(T)}
         except LookupError:
             continue
         o_cost = sum(p * w for p, w in zip(o_prices, power)) * (per / 60.0)
@@ -368,7 +374,7 @@ def _run_sim(case, obs):
         obs.ev("cost_checks_under_another_tariff_in_the_same_process")
         if not (abs(c - o_cost) <= 1e-9 * max(1.0, abs(o_cost))):
             obs.violate("energy_cost", f"costed under {other} after {name}: {c!r} expected {o_cost!r}", file=other, after=name)
-        if not (abs(dch - o_dc) <= 1e-9 * max(1.0, abs(o_dc))):
+        if not any(abs(dch - r_ * max(power)) <= 1e-9 * max(1.0, abs(r_ * max(power))) for r_ in o_rates):
             obs.violate("demand_charge", f"under {other} after {name}: {dch!r} expected {o_dc!r}", file=other, after=name)
     if max(power) > 0 and len(seen) >= 2:
         obs.nontrivial()
